@@ -223,6 +223,17 @@ func runC16(c *ShardCtx) {
 					case exhausted && o.NoRecover && obs.Panic != "maxexpr":
 						diffs = append(diffs, fmt.Sprintf("Recover(false): want the budget error as panic value, got %q", obs.Panic))
 					}
+					if (n == 1 || n == top/2) && !obs.Diverged && len(diffs) == 0 {
+						// the SAME option values passed to a second call (a caller keeping limit :=
+						// MaxExpressions(n) for all its inputs): the budget applies again
+						ow := os
+						ow.MaxExpr, ow.TickCap = uint64(n), 5000
+						again := b.RunWarmReuse(in, &ow, nil)
+						c.Res.Evaluations++
+						if again.Diverged || again.Val != obs.Val || fmt.Sprint(msgs(again)) != fmt.Sprint(msgs(obs)) || again.Panic != obs.Panic {
+							diffs = append(diffs, fmt.Sprintf("MaxExpressions(%d): a second call with the same option VALUES returns %s %v %q (did not return: %v), the first %s %v %q", n, again.Val, msgs(again), again.Panic, again.Diverged, obs.Val, msgs(obs), obs.Panic))
+						}
+					}
 					if n == top+1 && !obs.Diverged && len(diffs) == 0 {
 						ow := os
 						ow.MaxExpr, ow.TickCap = uint64(n), 5000
